@@ -335,6 +335,8 @@ class TypeMap:
         return t
 
     def tag(self, ctype):
+        # LP64: size_t and unsigned long are one type; one tag, so that pair<size_t,..> and pair<unsigned long,..> coincide
+        ctype = re.sub(r"\bsize_t\b", "unsigned long", ctype)
         return ident(ctype.replace("struct ", "").replace("*", "P").replace(" ", "_"))
 
     def struct_tag(self, name):
@@ -403,6 +405,8 @@ class TypeMap:
         name = t.name
         if name in ("bool", "_Bool"):
             return "_Bool"
+        if name in ("std::strong_ordering", "strong_ordering") and not t.args:
+            return "int"  # -1 less, 0 equal/equivalent, 1 greater
         if name in ("std::_Bit_reference", "_Bit_reference", "std::vector<bool>::reference"):
             return "_Bool"  # proxy reference to an element of vector<bool>: the element lvalue of the seq model
         words = name.split(" ")
@@ -444,9 +448,10 @@ class TypeMap:
             return self.c(a0) + "*"
         if last in ASSOC_ITERS and t.args:
             return self.c(t.args[0]) + "*"
-        if last in ("iterator", "const_iterator", "reverse_iterator", "const_reverse_iterator") and "::" in name:
+        if last in ("iterator", "const_iterator", "reverse_iterator", "const_reverse_iterator") and "::" in name \
+                and not t.args:
             # std::vector<T>::iterator printed unsugared
-            m = re.match(r"(.*)<(.*)>::(const_)?iterator$", name)
+            m = re.match(r"(.*)<(.*)>::(const_)?(reverse_)?iterator$", name)
             if m and m.group(1).split("::")[-1] in SEQS:
                 return self.c(parse(first_targ(m.group(2)))) + "*"
             raise Unsupported("iterator type %s" % name)
@@ -464,6 +469,8 @@ class TypeMap:
             return self.c(t.args[0])
         if (last == "function" and t.args) or name == "vf_lambda":
             return "struct vf_fn"
+        if last in ("unique_lock", "lock_guard", "scoped_lock"):
+            return "struct vf_lock"  # lock ownership token: mutual exclusion itself is not modelled (sequential units)
         if last == "array" and len(t.args) == 2 and t.args[1].kind == "lit":
             e = self.c(t.args[0])
             n = re.sub(r"[uUlL]+$", "", t.args[1].name)
@@ -474,12 +481,15 @@ class TypeMap:
             return self.scalar_classes[last]["ctype"]
         if last in ("mersenne_twister_engine", "mt19937"):
             return "struct vf_mt19937"
+        if last == "exception_ptr" and not t.args and name.startswith("std::"):
+            return "vf_excptr"  # std::exception_ptr: the KIND of the stored exception (0 = null, VF_EXC_<Type>)
         if last == "result_type" and "mersenne_twister_engine" in name:
             return "unsigned long"
         if last in ("map", "unordered_map") and len(t.args) >= 2:
             a, b = self.c(t.args[0]), self.c(t.args[1])
             tg = self.tag(a) + "__" + self.tag(b)
             self.map_insts.setdefault(tg, (a, b))
+            self.pair_insts.setdefault(tg, (a, b))  # the map model stores entries of this pair type
             return "struct vf_map_" + tg
         if last in ("set", "unordered_set", "flat_set") and t.args:
             a = self.c(t.args[0])
@@ -525,6 +535,12 @@ class TypeMap:
                     return self.c(parse(a0))
                 if m.group(1) in ("map", "unordered_map", "multimap") and m.group(3) == "mapped_type" and rest:
                     return self.c(parse(first_targ(rest)))
+        if last in ("value_type", "pointer", "const_pointer") and "<" in name:
+            # member types of std::array / the sequence containers: the element type (first template argument) / pointer to it
+            m = re.match(r"(?:.*?::)?([A-Za-z_]\w*)<(.*)>::(value_type|pointer|const_pointer)$", name)
+            if m and (m.group(1) == "array" or m.group(1) in SEQS):
+                inner = self.c(parse(first_targ(m.group(2))))
+                return inner + ("*" if m.group(3) != "value_type" else "")
         if last in ("reference", "const_reference", "value_type", "_Self", "pointer", "mapped_type", "key_type"):
             raise Unsupported("dependent member type %s (no desugared form)" % name)
         # class type
